@@ -360,6 +360,8 @@ def iv_cmod(a: Iv, b: Iv) -> Iv:
                 return Iv(a.lo % m, a.hi % m, p)
             return Iv(0, min(a.hi, m - 1), p)
         if a.hi <= 0:
+            if b.const and a.bounded and a.hi - a.lo < m and ((-a.hi) % m) <= ((-a.lo) % m):
+                return Iv(-((-a.lo) % m), -((-a.hi) % m), p)  # exact on a short negative range: -(|a| mod m)
             return Iv(max(a.lo, -(m - 1)), 0, p)
         return Iv(max(a.lo, -(m - 1)), min(a.hi, m - 1), p)
     return Iv(-INF, INF, False)
